@@ -175,6 +175,9 @@ func checkC11(c *Ctx) {
 		c.Undecided("C11-R1", "package tcell", "-", "not loaded")
 		return
 	}
+	c.Rule("C11-R16", "mainLoop scans a freshly read chunk with expire=false; only the escape timer's branch says that the wait is over (how much is buffered says nothing about whether the rest of a character is still on its way)")
+	c.Expect("C11-R16", 1)
+	checkScanExpiry(c, p, "C11-R16")
 	pr := p.Fn("tcell:(*tScreen).parseRune")
 	if pr == nil {
 		c.Undecided("C11-R1", "parseRune", "-", "not found")
